@@ -1,4 +1,5 @@
 #include <stdbool.h>
+#include <stddef.h>
 #include "log.h"
 #include "mem.h"
 #include "public/module/structs/queue.h"
@@ -68,7 +69,8 @@ _public_ int m_queue_itr_remove(m_queue_itr_t *itr) {
             itr->q->dtor(tmp->userptr);
         }
         if (tmp == itr->q->tail) {
-            itr->q->tail = NULL;
+            /* Last elem removed: new tail is the elem whose 'prev' we are pointing to, if any elem is left */
+            itr->q->tail = itr->q->head ? (queue_elem *)((char *)itr->elem - offsetof(queue_elem, prev)) : NULL;
         }
         memhook._free(tmp);
         itr->q->len--;
